@@ -33,7 +33,7 @@ let str_req (r : request) =
                       ni r.q_li ^ "." ^ ni r.q_lt ^ "." ^ ni r.q_lc; str_entries logs ]
 
 let str_res = function
-  | ROk -> "ok"
+  | ROk0 -> "ok"
   | RLeaderMismatch l -> "lm" ^ ni l
   | RTermMismatch (l, r) -> "tm" ^ ni l ^ "." ^ ni r
   | RLogMismatch (il, ir, tl, tr, cl, cr) -> "gm" ^ String.concat "." (List.map ni [il; ir; tl; tr; cl; cr])
@@ -60,7 +60,7 @@ let handle (cmd : string) (args : sexp list) : string =
   match cmd, args with
   | "run", A n :: evs ->
     let c = ref (init_default (n_of_s n)) in
-    let out = List.map (fun e -> c := step !c (ev_of_sexp e); str_cluster !c) evs in
+    let out = List.map (fun e -> c := step0 !c (ev_of_sexp e); str_cluster !c) evs in
     String.concat " ;; " out
   | "flags", A n :: evs ->
     let c = run (n_of_s n) (List.map ev_of_sexp evs) in
